@@ -107,6 +107,10 @@ class Panoptica_Statistic:
         # list of floats in order fo subject_names
         # from group to metric to list of values
         value_dict: dict[str, dict[str, list[float]]] = {}
+        # every group of the header exists, also while no subject has been recorded yet
+        for group_name, _ in keys_in_order:
+            if group_name not in value_dict:
+                value_dict[group_name] = {m: [] for m in metric_names}
 
         # now load entries
         for r in rows[1:]:
